@@ -58,6 +58,17 @@ pub struct State {
     pub slots: BTreeMap<usize, Slot>,
     pub results: BTreeMap<u64, String>,
     pub monitor_failures: Vec<String>,
+    /// global sequence numbers of begin (b), handler exit (x), done (d), refused-by-panic (p) per op
+    pub seq: u64,
+    pub qlog: Vec<String>,
+}
+
+impl State {
+    pub fn stamp(&mut self, tag: char, o: u64) {
+        self.seq += 1;
+        let q = format!("{tag}{o}={}", self.seq);
+        self.qlog.push(q);
+    }
 }
 
 pub struct Shared {
@@ -157,6 +168,7 @@ fn record_result(sh: &Shared, o: u64, k: Kind, target: Option<usize>, res: Strin
             st.env[t].tells_ok.push(o);
         }
     }
+    st.stamp('d', o);
     st.results.insert(o, res);
 }
 
@@ -190,9 +202,27 @@ async fn run_hook(idx: usize, sh: &Arc<Shared>) -> HOut {
                 if op_fresh(sh, o) {
                     match strong_slot(sh, slot) {
                         Some(r) => {
-                            sh.st.lock().unwrap().results.insert(o, "pending".into());
+                            {
+                                let mut st = sh.st.lock().unwrap();
+                                st.results.insert(o, "pending".into());
+                                st.stamp('b', o);
+                            }
                             let t = target_of(sh, &r);
+                            // if the operation itself panics (cycle detector) it never existed
+                            struct Unrecord<'a>(&'a Shared, u64);
+                            impl Drop for Unrecord<'_> {
+                                fn drop(&mut self) {
+                                    if std::thread::panicking() {
+                                        if let Ok(mut st) = self.0.st.lock() {
+                                            st.results.remove(&self.1);
+                                            st.stamp('p', self.1);
+                                        }
+                                    }
+                                }
+                            }
+                            let g = Unrecord(sh, o);
                             let res = do_op(&r, o, k, tmo).await;
+                            drop(g);
                             drop(r);
                             record_result(sh, o, k, t, res);
                         }
@@ -309,7 +339,11 @@ impl<const K: u8> Message<M<K>> for SA {
             HOut::Ok => HOut::Reply(1000 + o),
             x => x,
         };
-        self.sh.log(self.idx, format!("HX{o}:{}", s_hout(&out)));
+        {
+            let mut st = self.sh.st.lock().unwrap();
+            st.stamp('x', o);
+            st.env[self.idx].events.push(format!("HX{o}:{}", s_hout(&out)));
+        }
         match out {
             HOut::Panic => panic!("scripted panic in handler"),
             HOut::Err(e) => Rep { a: self.idx, o, v: e },
@@ -408,7 +442,11 @@ impl Director {
                             self.sh.st.lock().unwrap().results.insert(*o, "skipped".into());
                         }
                         Some(r) => {
-                            self.sh.st.lock().unwrap().results.insert(*o, "pending".into());
+                            {
+                                let mut st = self.sh.st.lock().unwrap();
+                                st.results.insert(*o, "pending".into());
+                                st.stamp('b', *o);
+                            }
                             let sh = self.sh.clone();
                             let (o, k, tmo) = (*o, *k, *tmo);
                             let h = tokio::spawn(async move {
@@ -470,11 +508,13 @@ impl Director {
                     }
                 }
             }
-            Action::Hook { a, it } => {
+            Action::Hook { a, its } => {
                 let ok = {
                     let mut st = self.sh.st.lock().unwrap();
                     if *a < st.env.len() {
-                        st.env[*a].hookq.push_back(it.clone());
+                        for it in its {
+                            st.env[*a].hookq.push_back(it.clone());
+                        }
                         true
                     } else {
                         false
@@ -553,6 +593,25 @@ impl Director {
                     None => "join=running".to_string(),
                     Some(Err(e)) => {
                         if e.is_panic() {
+                            // a deliberate panic of the cycle detector is a hook event of this actor
+                            let payload = e.into_panic();
+                            let msg = payload
+                                .downcast_ref::<String>()
+                                .cloned()
+                                .or_else(|| payload.downcast_ref::<&str>().map(|s| s.to_string()))
+                                .unwrap_or_default();
+                            if let Some(rest) = msg.strip_prefix("Deadlock detected: ask cycle ") {
+                                let line = rest.lines().next().unwrap_or("");
+                                let base = self.id_base.unwrap_or(0);
+                                let ids: Vec<String> = line
+                                    .split("(#")
+                                    .skip(1)
+                                    .filter_map(|p| p.split(')').next())
+                                    .filter_map(|n| n.parse::<u64>().ok())
+                                    .map(|n| (n - base).to_string())
+                                    .collect();
+                                self.sh.st.lock().unwrap().env[a].events.push(format!("DLK:{}", ids.join(">")));
+                            }
                             "join=panic".to_string()
                         } else {
                             "join=cancelled".to_string()
@@ -617,6 +676,7 @@ impl Director {
         #[cfg(not(feature = "f-testutils"))]
         writeln!(s, "DC n=-").unwrap();
         writeln!(s, "G {}", graph_tokens(self.id_base.unwrap_or(0))).unwrap();
+        writeln!(s, "Q {}", self.sh.st.lock().unwrap().qlog.join(" ")).unwrap();
         writeln!(s, "E").unwrap();
         self.out.push_str(&s);
     }
